@@ -3,8 +3,13 @@ CL03 sigma protocols: monad plumbing, arithmetic bridge (`ArithOK` → `Int.ModE
 product loops, completeness of `nisp2sec`, `nispMultiSecrets`, `nisp2`, special soundness (representation
 extraction) and the Euler-inverse lemma used by blind issuance (C14).
 
-Self-contained: the shared files `ClMonad.lean` / `ClAlgebra.lean` did not exist when this file was written,
-so local versions of the monad / `pw` / Euler lemmas are proved here (namespace `Zk.ClSigma`).
+Also: `TapeFree` (verification consumes no randomness), the unit-group bridge for negative exponents,
+`zkpokVerify_true_iff`, `hashInts_collision`.
+
+Self-contained (imports only `ClSetting` and Mathlib): the shared files `ClMonad.lean` / `ClAlgebra.lean` did
+not exist when this file was started, so local versions of the monad / `pw` / Euler / `TapeFree` lemmas are
+proved here, in the namespace `Zk.ClSigma` (the same short names exist in `Zk.Cl` in `ClMonad.lean`; qualify
+them when both are imported, as `Props/C14.lean` does).
 -/
 import ZkProofs.ClSetting
 import Mathlib.Data.Int.ModEq
@@ -2125,5 +2130,85 @@ theorem zkpokVerify_true_elim {cs : Suite} {π : ZKPoK} {Cv : Int} {Ctv : Option
         simp only [bind_ok_iff, ofOpt_ok_iff] at hT
         obtain ⟨p, t0, ⟨hp, rfl⟩, hv⟩ := hT
         exact ⟨p, hp, (nisp2Verify_tapeFree _ _ _ _ _ _ _).ok_any hv []⟩
+
+/-! ## 17. `ZKPoK::verify_proof` is a conjunction of independent checks -/
+
+theorem zkMiVerifyLoop_congr (cs : Suite) (pk : PublicKey) (bases : List Int) {π π' : ZKPoK}
+    (h1 : π.proofsMi = π'.proofsMi) (h2 : π.rangeProofsMi = π'.rangeProofsMi) :
+    ∀ (is : List Nat) (k : Nat), zkMiVerifyLoop cs pk bases π is k = zkMiVerifyLoop cs pk bases π' is k := by
+  intro is
+  induction is with
+  | nil => intro k; rfl
+  | cons i is ih =>
+    intro k
+    simp only [zkMiVerifyLoop, h1, h2, ih]
+
+/-- The five independent checks of `ZKPoK::verify_proof`. -/
+structure ZkpokChecks (cs : Suite) (π : ZKPoK) (Cv : Int) (Ctv : Option Int) (pk : PublicKey)
+    (bases : List Int) (cpk : Option CommitmentPK) (U : List Nat) : Prop where
+  trusted : ∀ ct k, Ctv = some ct → cpk = some k → ∃ p, π.proofCCtrusted = some p ∧
+    nisp2Verify p Cv ct pk bases k U [] = .ok (true, [])
+  msgs : nispMultiSecretsVerify π.proofMsgs Cv pk bases (some U) [] = .ok (true, [])
+  mi : zkMiVerifyLoop cs pk bases π U 0 [] = .ok (true, [])
+  r : ∃ a0, bases[0]? = some a0 ∧
+    nisp2secVerify π.proofR.value π.proofR.commitment.value a0 pk.b pk.N [] = .ok (true, []) ∧
+    rangeVerify cs π.rangeProofR a0 pk.b pk.N 0 (2 ^ cs.ln - 1) [] = .ok (true, [])
+
+theorem zkpokVerify_true_iff {cs : Suite} {π : ZKPoK} {Cv : Int} {Ctv : Option Int} {pk : PublicKey}
+    {bases : List Int} {cpk : Option CommitmentPK} {U : List Nat} {t t' : List Draw} :
+    zkpokVerify cs π Cv Ctv pk bases cpk U t = .ok (true, t') ↔
+      t' = t ∧ ZkpokChecks cs π Cv Ctv pk bases cpk U := by
+  constructor
+  · intro h
+    have ht := (zkpokVerify_tapeFree _ _ _ _ _ _ _ _).tape_eq h
+    obtain ⟨h1, h2, h3⟩ := zkpokVerify_true_elim h
+    refine ⟨ht, h3, h1, h2, ?_⟩
+    have h0 := (zkpokVerify_tapeFree _ _ _ _ _ _ _ _).ok_any h []
+    unfold zkpokVerify at h0
+    simp only [bind_ok_iff] at h0
+    obtain ⟨okT, t1, hT, h0⟩ := h0
+    cases okT with
+    | false => simp only [Bool.not_false, if_true, pure_ok_iff] at h0; exact absurd h0.1 (by decide)
+    | true =>
+      rw [not_true_if, bind_of_ok ((nispMultiSecretsVerify_tapeFree _ _ _ _ _).ok_any h1 t1), not_true_if,
+        bind_of_ok ((zkMiVerifyLoop_tapeFree _ _ _ _ _ _).ok_any h2 t1), not_true_if] at h0
+      simp only [bind_ok_iff, idx_ok_iff] at h0
+      obtain ⟨a0, t2, ⟨ha0, rfl⟩, ok, t3, hv, h0⟩ := h0
+      cases ok with
+      | false => simp only [Bool.not_false, if_true, pure_ok_iff] at h0; exact absurd h0.1 (by decide)
+      | true =>
+        rw [not_true_if] at h0
+        exact ⟨a0, ha0, (nisp2secVerify_tapeFree _ _ _ _ _).ok_any hv [],
+          (rangeVerify_tapeFree _ _ _ _ _ _ _).ok_any h0 []⟩
+  · rintro ⟨rfl, hT, h1, h2, a0, ha0, h3, h4⟩
+    unfold zkpokVerify
+    have key : ∀ (X : M Bool), X t' = .ok (true, t') →
+        (X >>= fun okT => if (!okT) = true then pure false else do
+          let ok ← nispMultiSecretsVerify π.proofMsgs Cv pk bases (some U)
+          if (!ok) = true then pure false else do
+            let ok ← zkMiVerifyLoop cs pk bases π U 0
+            if (!ok) = true then pure false else do
+              let a0 ← idx bases 0
+              let ok ← nisp2secVerify π.proofR.value π.proofR.commitment.value a0 pk.b pk.N
+              if (!ok) = true then pure false
+              else rangeVerify cs π.rangeProofR a0 pk.b pk.N 0 (2 ^ cs.ln - 1)) t' = .ok (true, t') := by
+      intro X hX
+      rw [bind_of_ok hX, not_true_if,
+        bind_of_ok ((nispMultiSecretsVerify_tapeFree _ _ _ _ _).ok_any h1 t'), not_true_if,
+        bind_of_ok ((zkMiVerifyLoop_tapeFree _ _ _ _ _ _).ok_any h2 t'), not_true_if,
+        bind_of_ok (idx_run ha0 t'), bind_of_ok ((nisp2secVerify_tapeFree _ _ _ _ _).ok_any h3 t'),
+        not_true_if]
+      exact (rangeVerify_tapeFree _ _ _ _ _ _ _).ok_any h4 t'
+    apply key
+    cases Ctv with
+    | none => rfl
+    | some ct =>
+      cases cpk with
+      | none => rfl
+      | some k =>
+        obtain ⟨p, hp, hv⟩ := hT ct k rfl rfl
+        show (ofOpt π.proofCCtrusted >>= fun p => nisp2Verify p Cv ct pk bases k U) t' = _
+        rw [bind_of_ok (ofOpt_run hp t')]
+        exact (nisp2Verify_tapeFree _ _ _ _ _ _ _).ok_any hv t'
 
 end Zk.ClSigma
